@@ -81,6 +81,9 @@ func (v *VC) Preamble() string {
 		sb.WriteString("(assert (forall ((a Str) (i Int) (j Int) (k Int)) (! (=> (and (<= 0 i) (<= i j) (<= j (strlen a)) (<= 0 k) (< k (- j i))) (= (str.at (str.sub a i j) k) (str.at a (+ i k)))) :pattern ((str.at (str.sub a i j) k)))))\n")
 		sb.WriteString("(assert (forall ((a Str)) (! (= (str.sub a 0 (strlen a)) a) :pattern ((str.sub a 0 (strlen a))))))\n")
 	}
+	if v.features["f2i"] {
+		sb.WriteString("(declare-fun f2i (Real) Int)\n")
+	}
 	if v.features["bytes.str"] {
 		sb.WriteString("(declare-fun bytes.str (Slice) Str)\n")
 	}
